@@ -956,6 +956,19 @@ impl Family for DeepNesting {
     }
     fn run(&self, idx: u64) -> CaseOut {
         let (shape, n, beyond) = DN_CASES[idx as usize];
+        // (the depths that must compile were measured against the usual 8 MiB stack of the main thread; where the
+        // platform hands out less, they shrink in proportion - the statement names no platform)
+        let n = if beyond {
+            n
+        } else {
+            let mut lim = libc::rlimit { rlim_cur: 0, rlim_max: 0 };
+            let ok = unsafe { libc::getrlimit(libc::RLIMIT_STACK, &mut lim) } == 0;
+            if ok && lim.rlim_cur != libc::RLIM_INFINITY && lim.rlim_cur < (8 << 20) {
+                ((n as u64 * lim.rlim_cur as u64 / (8 << 20)) as usize).max(50)
+            } else {
+                n
+            }
+        };
         let text = Self::text(shape, n);
         let mut out = CaseOut::new(hash_str(&format!("c01dn{idx}")));
         out.nontrivial = true;
@@ -967,10 +980,12 @@ impl Family for DeepNesting {
         let overflow = obs.signal == Some(libc::SIGABRT) || obs.signal == Some(libc::SIGSEGV) || String::from_utf8_lossy(&obs.stderr).contains("stack overflow");
         if beyond {
             // one signature per shape, whatever the depth: the entry of known_findings.json names exactly this
+            // (nothing else is judged at this size: the time bound of the statement ends at 8 KiB, and on a platform
+            // that hands out a larger stack the input is simply compiled)
             if overflow {
                 out.violate(format!("c01/deep-nesting/{shape}/stack-overflow-beyond-100KiB"), desc());
-            } else if obs.timed_out || obs.panic_location().is_some() || obs.signal.is_some() || obs.exit_code != Some(0) {
-                out.violate(format!("c01/deep-nesting/{shape}-of-{n}-levels/no-clean-verdict"), desc());
+            } else if let Some(loc) = obs.panic_location() {
+                out.violate(format!("c01/deep-nesting/{shape}-of-{n}-levels/panic@{loc}"), desc());
             }
         } else if obs.timed_out {
             out.violate(format!("c01/deep-nesting/{shape}-of-{n}-levels/no-verdict-within-20s"), desc());
